@@ -74,11 +74,13 @@ def make_fixed(cls, lv, vals):
     M, E = _imports()
     by = {path: v for (path, _, _, _), v in zip(lv, vals)}
     name = cls.__name__
-    if name == "ErrorMessage":
-        code = by[("err_code",)]
+    # the single payload leaf of the two enum-valued messages, whatever the ctypes field is called
+    payload = [v for (path, _, _, _), v in zip(lv, vals) if path != ("type",)]
+    if name == "ErrorMessage" and len(payload) == 1:
+        code = payload[0]
         m = cls(M.ErrorCode(code)) if code in [e.value for e in M.ErrorCode] else cls(M.ErrorCode.GENERAL)
-    elif name == "SignalMessage":
-        sig = by[("signal",)]
+    elif name == "SignalMessage" and len(payload) == 1:
+        sig = payload[0]
         m = cls(M.Signal(sig)) if sig in [e.value for e in M.Signal] else cls()
     elif name == "ReturnRegMessage":
         reg = E.Register.__new__(E.Register)  # avoid the range check: out-of-width probes are never used
